@@ -302,6 +302,22 @@ func init() {
 			for _, item := range []string{`"` + strings.Repeat("s", 1200000) + `"`, "#" + strings.Repeat("c", 1200000) + "\n", strings.Repeat(" ", 1200000), strings.Repeat("\n", 1100000), strings.Repeat("i", 1100000)} {
 				c.Do(subC07, &c07Case{Src: "print 1\nprint " + item + " print 2\nprint )", Mode: "bigpages"})
 			}
+			// SEVERAL lexical items that each span two or more pages, of every kind, one after the other (what an earlier long
+			// item left behind in the lexer meets the next one), and numbers / names / strings cut by a page boundary mid-way
+			for _, n := range []int{4090, 4100, 8200, 9000, 13000} {
+				long := []string{`"` + strings.Repeat("s", n) + `"`, strings.Repeat("i", n), "#" + strings.Repeat("c", n) + "\n", `"` + strings.Repeat("t", n+7) + `"`, strings.Repeat("j", n+3)}
+				for i, a := range long {
+					for j, b := range long {
+						if (i+j)%2 == 0 || n == 9000 {
+							c.Do(subC07, &c07Case{Src: "def b {\n x = " + a + "\n y = " + b + "\n z = x == y\n}\nprint " + a + " == " + b + "\nprint )", Mode: "fixed"})
+						}
+					}
+				}
+			}
+			for off := 4080; off <= 4100; off++ {
+				pad := "#" + strings.Repeat("p", off-2) + "\n"
+				c.Do(subC07, &c07Case{Src: pad + "def b { limit = 250000; f = 12345.5; g = 0x1fffff; h = 1e10; name_of_it = \"string value\" }\nprint 1234567 + 7654321", Mode: "fixed"})
+			}
 			for _, k := range []int{30, 64, 65, 66, 100, 200, 700} {
 				c.Do(subC07, &c07Case{Src: strings.Repeat("print 1 +\n", k) + "2\nprint )\n\nprint (\n", Mode: "fixed"})
 			}
